@@ -56,8 +56,8 @@ def family(run, label, over, procs=("p1",), parts=("a",), ik=("session", "shared
     run.absorb(res)
     d = res.get("extra", {}).get("drift_traces", 0)
     if d:
-        print("MODEL-DRIFT property=%s %d of %d replayed behaviours differ from Envelope.tla's prediction, e.g. %s" % (
-            run.prop, d, res["evaluations"], (res["extra"].get("drift_samples") or ["?"])[0]))
+        print("MODEL-DRIFT property=%s family=%s %d of %d replayed behaviours differ from Envelope.tla's prediction (conformance of the impl-shaped model only, never a verdict), e.g. %s" % (
+            run.prop, label, d, res["evaluations"], (res["extra"].get("drift_samples") or ["?"])[0]))
     run.notes.append("%s: %d cases replayed, %d with drift, %d events" % (label, res["evaluations"], d, res.get("events", 0)))
     viols = monitor(run, trace)
     return res, viols
@@ -270,6 +270,11 @@ def check_C04(run):
     # an intermediate key younger than its system key (second partition), the system key expires first, the old record is read again
     fams.append(("older-key-2parts", dict(over=dict(MaxT=6, MaxKids=5, MaxRecs=2, MaxRevokes=0, Ticks="{2,1}", OpKinds='{"Enc", "Dec"}', EmitEvery=6 if q else 2),
                                           parts=("a", "b"), ik=("session",), sk=(True,))))
+    # metastore / KMS faults while keys are being rotated (the writes that are accepted must still never put an IK under an expired SK)
+    fams.append(("expiry+faults", dict(over=dict(MaxT=5, Ticks="{4}", MaxKids=5, MaxRecs=1, MaxRevokes=0, MaxFaults=2, MaxOpFaults=2, EmitEvery=8 if q else 20),
+                                       ik=("session",), sk=(True,) if q else (True, False))))
+    fams.append(("older-key-2parts+fault", dict(over=dict(MaxT=6, MaxKids=5, MaxRecs=1, MaxRevokes=0, Ticks="{2,1}", OpKinds='{"Enc"}', MaxFaults=1, MaxOpFaults=1, EmitEvery=10 if q else 3),
+                                                parts=("a", "b"), ik=("session",), sk=(True,))))
     if not q:
         fams.append(("expiry+revoke", dict(over=dict(MaxT=7, MaxKids=6, MaxRecs=1, MaxRevokes=1, EmitEvery=60), ik=("session", "shared"), sk=(True, False))))
     return generic(run, fams)
